@@ -464,6 +464,9 @@ def check_shape(chk, gen, runner, shape, want, stats):
         stats[sr.status] = stats.get(sr.status, 0) + 1
         if sr.status == 'non-uniform':
             chk.res.inconclusive.append(f"lexer/linker output not uniform in the integer values for shape {shape.role()}")
+        elif sr.status == 'rejected-natively' and bridge.REJECT_IS_VIOLATION:
+            e = sr.native.get('error') or {}
+            chk.violation(f"rejected {shape.role()}", f"valid constraint notation is rejected ({str(e.get('display'))[:100]}): {sr.text_a}", {'kind': 'text', 'text': sr.text_a})
         return
     stats['shapes'] = stats.get('shapes', 0) + 1
     rs = chk.explore(sr.run)
